@@ -171,6 +171,8 @@ pub fn domain_merge_hints<S: Src>(s: &mut S, bits: u32, max_stride: u64, lower: 
 }
 
 crate::harnesses! {
+    // the IntervalDomain-level harnesses (stretch) run into the width blow-up described in DESIGN.md 8.2 (10-20 GB each);
+    // that layer is decided by the result-validation part of the check
     @quick c03_bitvector_vv_8[4] => bitvector_vv(8);
     c03_bitvector_vv_64[4] => bitvector_vv(64);
     @quick c03_bitvector_merge_with_8[4] => bitvector_merge_with(8);
@@ -180,8 +182,8 @@ crate::harnesses! {
     @quick c03_interval_merge_8_s15[4] => interval_merge(8, 15);
     c03_interval_merge_8[4] => interval_merge(8, 255);
     c03_interval_merge_64_s16[4] => interval_merge(64, 16);
-    c03_domain_merge_nohints_8[4] => domain_merge_nohints(8, 255);
-    c03_domain_merge_lower_8[4] => domain_merge_hints(8, 255, true, false);
-    c03_domain_merge_upper_8[4] => domain_merge_hints(8, 255, false, true);
-    c03_domain_merge_both_8[4] => domain_merge_hints(8, 255, true, true);
+    @stretch c03_domain_merge_nohints_8[4] => domain_merge_nohints(8, 255);
+    @stretch c03_domain_merge_lower_8[4] => domain_merge_hints(8, 255, true, false);
+    @stretch c03_domain_merge_upper_8[4] => domain_merge_hints(8, 255, false, true);
+    @stretch c03_domain_merge_both_8[4] => domain_merge_hints(8, 255, true, true);
 }
